@@ -10,7 +10,7 @@
                    input does not carry the "__fastavro_parsed" marker (all generated schemas) *)
 From Coq Require Import String.
 From FA Require Import model.Base model.Json model.Parse model.SchemaSpec model.Canon
-     proofs.JsonProofs proofs.ParseProofs proofs.CanonProofs.
+     model.Inline proofs.JsonProofs proofs.ParseProofs proofs.CanonProofs proofs.InlineProofs.
 Open Scope string_scope.
 
 (** canon (parse j) = pcf j, for every raw schema the parser accepts, any fuel, any
@@ -19,6 +19,32 @@ Theorem C13_spec : forall f j t p t',
   simple_raw j = true -> parse_schema f j t = POk (p, t') -> canon p = pcf j.
 Proof. exact canon_parse_is_pcf. Qed.
 Print Assumptions C13_spec.
+
+(** to_parsing_canonical_form = parse, inline (_inline_named_schemas, since fdcd1d1), print.
+    Inlining is the identity on every schema in which each reference is preceded by its definition
+    in document order ([closed_m]) ... *)
+Theorem C13_inline_id_on_closed : forall tbl f p defined defined',
+  (jdepth p < f)%nat -> closed_m p PSchema defined = Some defined' ->
+  inline_rec f tbl p defined = POk (p, defined').
+Proof. exact inline_closed_id. Qed.
+Print Assumptions C13_inline_id_on_closed.
+
+(** ... the parser's output for a raw schema parsed from scratch is such a schema ... *)
+Theorem C13_parsed_closed : forall f j p t,
+  unmarked j = true -> parse_schema f j [] = POk (p, t) -> closed p = true /\ inline t p = POk p.
+Proof. intros f j p t U H. split; [eapply parsed_is_closed; eauto|eapply inline_id_on_parsed; eauto]. Qed.
+Print Assumptions C13_parsed_closed.
+
+(** ... hence what to_parsing_canonical_form returns is the specification's form of the raw schema *)
+Theorem C13_to_canonical : forall j s,
+  simple_raw j = true -> to_canonical j = POk s -> s = pcf j.
+Proof.
+  intros j s S H. assert (U : unmarked j = true) by (unfold simple_raw in S; now apply Bool.andb_true_iff in S).
+  destruct (parse_auto j) as [[p t]| | | |] eqn:E; try (unfold to_canonical in H; rewrite E in H; discriminate H).
+  rewrite (to_canonical_parsed _ _ _ U E) in H. injection H as <-.
+  exact (canon_parse_is_pcf _ _ _ _ _ S E).
+Qed.
+Print Assumptions C13_to_canonical.
 
 (** the same at every inner position: any namespace, any parser state, any default *)
 Theorem C13_spec_inner : forall f j ns wh st d p st',
